@@ -178,6 +178,21 @@ fn check_compose<const K: usize>(f: &TSpec, g: &TSpec, layout: u8, apply: Option
             }
         }
     }
+    if apply.is_none() && f.n_nodes() <= 3 && g.n_nodes() <= 3 {
+        // the generic entry point with the terminals given as a lazily filtered iterator (size_hint lower bound 0)
+        use affinitree::pwl::impl_composition::{FunctionComposition, NoOpVis};
+        let mut hg = ft.clone();
+        out.add("real_executions", 1);
+        let terms: Vec<usize> = hg.tree.terminal_indices().collect();
+        match catch(|| AffTree::<K>::generic_composition_inplace(&gt, &mut hg, terms.iter().cloned().filter(|_| true), FunctionComposition {}, NoOpVis {})) {
+            Err(msg) => out.violate(Violation::new(format!("generic_composition_inplace with a filtered terminal iterator panicked: {msg}"), record.clone()).tag("kind", "variant")),
+            Ok(()) => {
+                if snap(&hg) != sh {
+                    out.violate(Violation::new("generic_composition_inplace with a filtered terminal iterator and compose::<false, false> leave different trees", record.clone()).tag("kind", "variant"));
+                }
+            }
+        }
+    }
     if snap(&gt) != sg {
         out.violate(Violation::new("right operand changed", record.clone()).tag("kind", "rhs_changed"));
     }
